@@ -383,25 +383,26 @@ type libRef struct {
 }
 
 type node struct {
-	w      *world
-	idx    int // producer index of this node (-1: observer)
-	store  chainStore
-	st     *dpos.Status
-	d      *dpos.DPoS
-	h      *dpos.VerifC08Handle
-	cm     *bp.Cluster
-	best   *sblk
-	main   []*sblk // harness reference of the main chain by number
-	known  map[*sblk]bool
-	rec    *recorder
-	maxLib libRef   // highest LIB this node ever reported
-	lastNo uint64   // LIB number reported after the previous complete arrival
-	fault  bool     // the history left the property's fault model (arbitrary Confirms, outsiders, injected gc): no property oracle
-	hist   []string // human-readable history of this node (replay)
-	sizeOv int      // producer-count override in force (0 = none)
-	events int
-	quiet  bool   // no per-node history (exploration: the schedule log replays the case)
-	taint  string // class of a tagged failure whose consequences later failures on this node are
+	w           *world
+	idx         int // producer index of this node (-1: observer)
+	store       chainStore
+	st          *dpos.Status
+	d           *dpos.DPoS
+	h           *dpos.VerifC08Handle
+	cm          *bp.Cluster
+	best        *sblk
+	main        []*sblk // harness reference of the main chain by number
+	known       map[*sblk]bool
+	rec         *recorder
+	maxLib      libRef   // highest LIB this node ever reported
+	lastNo      uint64   // LIB number reported after the previous complete arrival
+	fault       bool     // the history left the property's fault model (arbitrary Confirms, outsiders, injected gc): no property oracle
+	hist        []string // human-readable history of this node (replay)
+	sizeOv      int      // producer-count override in force (0 = none)
+	events      int
+	quiet       bool          // no per-node history (exploration: the schedule log replays the case)
+	gaps        []gapAdoption // reorganisations adopted below a reported LIB through the restart veto gap
+	maxLibStale bool          // maxLib was a stale report (never on this node's main chain)
 }
 
 func (n *node) selfID() string {
@@ -536,7 +537,7 @@ func (n *node) arrive(b *sblk) int {
 	// chainhandle.go addBlockInternal: VerifyTimestamp first
 	ok := n.verifyTs(b)
 	if b.no <= n.maxLib.no && ok {
-		n.failVeto(fmt.Sprintf("VerifyTimestamp accepted block %s numbered %d <= LIB %d this node reported", b.name, b.no, n.maxLib.no), false)
+		n.failVeto(fmt.Sprintf("VerifyTimestamp accepted block %s numbered %d <= LIB %d this node reported", b.name, b.no, n.maxLib.no))
 	}
 	if !ok {
 		n.logf("recv %s(no=%d bp=%s c=%d prev=%s): rejected, no <= LIB", b.name, b.no, w.prods[b.bp].name, b.confirms, b.prev.name)
@@ -565,8 +566,9 @@ func (n *node) arrive(b *sblk) int {
 		}
 		root := x
 		allowed := n.needReorg(root.no)
+		gap := false
 		if root.no < n.maxLib.no && allowed {
-			n.failVeto(fmt.Sprintf("NeedReorganization allowed a reorganisation with branch root %d below LIB %d this node reported", root.no, n.maxLib.no), true)
+			gap = n.failVeto(fmt.Sprintf("NeedReorganization allowed a reorganisation with branch root %d below LIB %d this node reported", root.no, n.maxLib.no))
 		}
 		if !allowed {
 			res = arrReorgVetoed
@@ -585,6 +587,13 @@ func (n *node) arrive(b *sblk) int {
 				names = append(names, x.name)
 			}
 			n.rec.op("swap "+strings.Join(names, ","), "ok", true)
+		}
+		if gap { // adopted through the restart veto gap: remember what it replaced
+			g := gapAdoption{rootNo: root.no, libBefore: n.maxLib.no, replaced: map[*sblk]bool{}}
+			for _, x := range n.main[root.no+1:] {
+				g.replaced[x] = true
+			}
+			n.gaps = append(n.gaps, g)
 		}
 		n.main = append([]*sblk{}, n.main[:root.no+1]...)
 		for i := len(nb) - 1; i >= 0; i-- {
